@@ -377,10 +377,13 @@ func (c *c11Cont) op(kind string) sim.Op {
 	c.n++
 	rng := c.rng
 	switch kind {
-	case "create", "dry-run-create":
+	case "create", "dry-run-create", "plain-create":
 		o := sim.Op{Kind: "postings", Postings: []sim.P{{Source: "world", Destination: fmt.Sprintf("post:import%d", c.n), Asset: "USD", Amount: fmt.Sprint(c.n)}}}
 		if rng.Intn(2) == 0 {
 			o.Metadata = map[string]string{"pi": fmt.Sprint(c.n)}
+		}
+		if kind == "plain-create" {
+			return o
 		}
 		if kind == "dry-run-create" {
 			o.DryRun = true
@@ -412,6 +415,15 @@ func (c *c11Cont) op(kind string) sim.Op {
 		return sim.Op{Kind: "save_tx_meta", TxID: c.pickTx(false), Metadata: map[string]string{"pi": fmt.Sprint(c.n)}}
 	case "del_tx_meta":
 		id := c.pickTx(false)
+		var withKeys []uint64
+		for _, t := range c.allTx {
+			if len(c.txKeys[t]) > 0 {
+				withKeys = append(withKeys, t)
+			}
+		}
+		if len(withKeys) > 0 && rng.Intn(5) > 0 {
+			id = withKeys[rng.Intn(len(withKeys))]
+		}
 		key := "absent"
 		if ks := c.txKeys[id]; len(ks) > 0 {
 			key = ks[rng.Intn(len(ks))]
@@ -446,9 +458,7 @@ func (c *c11Cont) op(kind string) sim.Op {
 func (c *c11Cont) write(kind, path string) c11Write {
 	w := c11Write{Kind: kind, Path: path, Ops: []sim.Op{c.op(kind)}}
 	if strings.HasPrefix(path, "bulk") && kind != "reference-conflict" && c.rng.Intn(2) == 0 {
-		o := c.op("create")
-		o.IK, o.Reference = "", ""
-		w.Ops = append(w.Ops, o)
+		w.Ops = append(w.Ops, c.op("plain-create"))
 	}
 	if len(w.Ops) == 1 && w.Ops[0].IK != "" {
 		c.ownIK = append(c.ownIK, w)
@@ -459,7 +469,7 @@ func (c *c11Cont) write(kind, path string) c11Write {
 // later draws a follow-up write.
 func (c *c11Cont) later() c11Write {
 	rng := c.rng
-	switch x := rng.Intn(20); {
+	switch x := rng.Intn(12); {
 	case x == 0 && len(c.refs) > 0:
 		return c.write("reference-conflict", []string{"controller", "http", "bulk", "bulk-atomic"}[rng.Intn(4)])
 	case x == 1 && len(c.ikOps) > 0:
@@ -743,7 +753,6 @@ func c11Reduced(s *memstore.Snap, imported *memstore.Snap) []string {
 		il[l.ID] = true
 	}
 	var out []string
-	out = append(out, "state="+s.State)
 	n := 0
 	for _, t := range s.Transactions {
 		label := fmt.Sprint(t.ID)
@@ -779,7 +788,7 @@ func c11Reduced(s *memstore.Snap, imported *memstore.Snap) []string {
 }
 
 func runC11(r *core.Run) {
-	n := r.N(4*len(c11Pairs), 70*len(c11Pairs))
+	n := r.N(4*len(c11Pairs), 150*len(c11Pairs))
 	r.Floor("imports_compared", int64(n*8/10))
 	r.Floor("histories_with_log_id_hole_in_the_middle", int64(n/4))
 	r.Floor("histories_with_first_log_id_above_1", int64(n/6))
@@ -796,20 +805,21 @@ func runC11(r *core.Run) {
 		pair := c11Pairs[c.Index%len(c11Pairs)]
 		src := &c11Source{e: e, rng: rng, st: &sim.GenState{}, types: map[string]bool{}, burners: map[string]bool{}}
 		// ---- source history, with id-burning operations at the beginning, in the middle, at the end
-		if rng.Intn(5) < 3 {
+		clean := rng.Intn(6) == 0 // no id burnt before the last log: contiguous ids
+		if !clean && rng.Intn(5) < 3 {
 			for i := 0; i <= rng.Intn(2); i++ {
 				src.burn("begin")
 			}
 		}
 		nops := 4 + rng.Intn(r.N(25, 40))
 		for i := 0; i < nops; i++ {
-			if i > 0 && rng.Intn(6) == 0 {
+			if !clean && i > 0 && rng.Intn(6) == 0 {
 				src.burn("middle")
 			}
 			src.apply("", sim.GenOp(rng, src.st))
 		}
 		needsTx := pair.Kind == "revert" || pair.Kind == "dry-run-revert" || pair.Kind == "save_tx_meta" || pair.Kind == "del_tx_meta"
-		if live := c11NewCont(rng, e.C.Snapshot("src"), nil).liveTx; needsTx && len(live) == 0 {
+		if pre := c11NewCont(rng, e.C.Snapshot("src"), nil); needsTx && (len(pre.liveTx) == 0 || pair.Kind == "del_tx_meta" && len(pre.txKeys) == 0) {
 			src.apply("guarantee-a-revertible-transaction", sim.Op{Kind: "postings", Postings: []sim.P{{Source: "world", Destination: "users:001", Asset: "USD", Amount: "12"}}, Metadata: map[string]string{"k1": "v"}})
 		}
 		if rng.Intn(2) == 0 {
@@ -910,7 +920,7 @@ func runC11(r *core.Run) {
 		}
 		r.Seen("first_write_kinds", pair.Kind+" via "+pair.Path)
 		firstSig := pair.Kind + "-via-" + pair.Path
-		sawCommit := false
+		sawCommit, sawHit := false, false
 		type step struct {
 			Write     c11Write `json:"write"`
 			OnSource  string   `json:"outcome_on_source"`
@@ -977,11 +987,15 @@ func runC11(r *core.Run) {
 			if len(dLogs) > 0 {
 				sawCommit = true
 			}
+			if strings.HasSuffix(do, ":hit") {
+				sawHit = true
+			}
 			if sawCommit && da.State != "in-use" {
 				c.Violation("C11/ledger-still-initializing-after-a-committed-write:"+where, vd(map[string]any{"state": da.State}))
 				return
 			}
-			if !sawCommit && da.State != "initializing" {
+			// (an idempotent replay is a successful write request: it moves the ledger to in-use without a new log)
+			if !sawCommit && da.State != "initializing" && !strings.HasSuffix(do, ":hit") && !sawHit {
 				c.Violation("C11/ledger-in-use-although-nothing-was-committed:"+where, vd(map[string]any{"state": da.State}))
 				return
 			}
